@@ -105,6 +105,7 @@ def checkC14 (toks : List String) (res : String) : Option Verdict := do
   | ["cap", _] => some { model := m, spec := none, branch := br, nontrivial := false }
   | ["capb", _, _] => some { model := m, spec := none, branch := br, nontrivial := false }
   | ["capwb", _, _, _] => some { model := m, spec := none, branch := br, nontrivial := false }
+  | ["oss", _, _] => some { model := m, spec := some (res == m), cls := cls, branch := br }
   | ["fixbw", d, base, name] =>
     let d ← d.toNat?; let base ← base.toNat?; let v ← tcWideVal d name
     c14Fixb m tag cls br base v res
